@@ -152,14 +152,14 @@ def contraction_check(case):
 # ------------------------------------------------------------------------------------------------ C02.scalar_dim
 def scalar_cases(tier, seed):
     nmax = 12 if tier == "quick" else 36
-    for N in range(2, nmax + 1):
+    for N in list(range(2, nmax + 1)) + [49, 98, 103]:  # 49, 98, 103: (1/N)*N != 1 in floating point (cf. seeded change C03-9)
         for d in range(1, N + 1):
             if N % d:
                 continue
             forms = ["scalar"] + (["omitted"] if d * d == N else [])
             for form in forms:
                 for sys_ in (None, 0, 1, [0], [1], [0, 1], [1, 0]):
-                    for ent in ("pow", "int", "complex"):
+                    for ent in (("pow", "int", "complex") if N <= 36 else ("int", "complex")):
                         yield {"N": N, "d": d, "sys": sys_, "dimform": form, "entries": ent}
 
 
